@@ -224,14 +224,26 @@ def rec_executor_class():
                 R.probe("suspension", len(suspensions))
             for r in res:
                 R.probe("fail" if r.failed() else "success")
-            if R.log.bad is not None:
-                raise R.log.bad
-            exdrv.check_results(res, t)
-            exdrv.invariants(self, R.acct, t)
-            _sys_tick_checks(R, self, t)
+            # evaluate every oracle of the tick; raise the first failure, the others ride along in detail["also"]
+            found = []
+
+            def _logbad():
+                if R.log.bad is not None:
+                    raise R.log.bad
+            checks = [_logbad, lambda: exdrv.check_results(res, t), lambda: exdrv.invariants(self, R.acct, t),
+                      lambda: _sys_tick_checks(R, self, t)]
             for o in R.oracles:
                 if hasattr(o, "on_tick"):
-                    o.on_tick(R, self, suspensions, assignments, res)
+                    checks.append(lambda o=o: o.on_tick(R, self, suspensions, assignments, res))
+            for chk in checks:
+                try:
+                    chk()
+                except Violation as v_:
+                    found.append(v_)
+            if found:
+                first = found[0]
+                first.detail = dict(first.detail, also=[{"rule": v_.rule, "detail": v_.detail} for v_ in found[1:]])
+                raise first
             return res
 
     _RecEx = RecExecutor
@@ -344,7 +356,10 @@ def run(scn, oracles=(), workload_factory=None, keep_rounds=True):
     from eudoxia.executor.container import Container
     cfg = scn["cfg"]
     algo = cfg["algo"]
-    if algo == "template":
+    if algo == "chaos":
+        ensure_chaos_scheduler()
+        key = ensure_wrapper("verifchaos")
+    elif algo == "template":
         key = ensure_wrapper(ensure_template())
     elif algo.startswith("raw:"):
         key = algo[4:]
@@ -413,3 +428,77 @@ def run(scn, oracles=(), workload_factory=None, keep_rounds=True):
         pr["to_" + k_] = v
     out["probes"] = pr
     return out, rec, stats
+
+
+# ---------------------------------------------------------------------------
+# chaos scheduler as an ordinary custom scheduler (registered through the public decorators)
+# ---------------------------------------------------------------------------
+_chaos_registered = False
+
+
+def ensure_chaos_scheduler():
+    """A seeded custom scheduler that issues arbitrary *admissible* decisions - any ready operators in any packing,
+    any sizes that fit, any pool, suspension of any container at a boundary, retries of failed work with any size -
+    so that the full loop (run_simulator, Scheduler, Executor, statistics) is exercised far outside the shipped
+    policies' habits."""
+    global _chaos_registered
+    if _chaos_registered:
+        return
+    import_repo()
+    from eudoxia.scheduler.decorators import register_scheduler, register_scheduler_init
+    from eudoxia.executor.assignment import Assignment, Suspend
+    from eudoxia.workload import OperatorState as S
+
+    @register_scheduler_init(key="verifchaos")
+    def cinit(s):
+        k = REC.scn.get("chaos", {})
+        s.vr = _random.Random(k.get("seed", 0))
+        s.vk = k
+        s.vpipes = []
+
+    @register_scheduler(key="verifchaos")
+    def cstep(s, results, pipelines):
+        r, k = s.vr, s.vk
+        s.vpipes.extend(pipelines)
+        multi = s.params["multi_operator_containers"]
+        over = s.params.get("allow_memory_overcommit", False)
+        sus, asg = [], []
+        for pl in s.executor.pools:
+            for c in pl.active_containers:
+                if c.can_suspend_container() and r.random() < k.get("p_sus", 0.2):
+                    sus.append(Suspend(c.container_id, pl.pool_id))
+        live = [p for p in s.vpipes if not p.runtime_status().is_pipeline_successful()]
+        pools = list(s.executor.pools)
+        r.shuffle(pools)
+        for pl in pools:
+            cpu_left, ram_left = pl.avail_cpu_pool, pl.avail_ram_pool
+            mine = []
+            for _ in range(k.get("per_pool", 2)):
+                if cpu_left < 1 or (ram_left <= 0 and not over) or r.random() > k.get("p_asg", 0.7) or not live:
+                    break
+                p = r.choice(live)
+                st = p.runtime_status().operator_states
+                states = (S.PENDING, S.FAILED) if k.get("retry", True) else (S.PENDING,)
+                chosen = []
+                for o in p.values:
+                    if st[o] in states and all(st[q] == S.COMPLETED or q in chosen for q in o.parents) and r.random() < k.get("p_op", 0.8):
+                        chosen.append(o)
+                        if not multi:
+                            break
+                if not chosen:
+                    continue
+                cpu = r.randint(1, max(1, int(cpu_left)))
+                if over and r.random() < 0.5:
+                    ram = pl.max_ram_pool * r.choice([0.25, 0.5, 1.0])
+                else:
+                    ram = ram_left * r.choice([0.05, 0.1, 0.25, 0.5, 0.9])
+                if ram <= pl.max_ram_pool * 1e-3:
+                    break
+                a = Assignment(ops=chosen, cpu=cpu, ram=ram, priority=p.priority, pool_id=pl.pool_id, pipeline_id=p.pipeline_id)
+                mine.append(a)
+                cpu_left -= cpu
+                ram_left -= ram
+            asg.extend(mine)
+        return sus, asg
+
+    _chaos_registered = True
